@@ -3,7 +3,7 @@
 # 1. demo passes on the unchanged worktree; 2. with the patch: project compiles, existing suite passes, demo fails;
 # 3. apply to /repo, run ./check <ID> (quick), undo.  Results -> /tmp/wt-out/<ID>/verify<n>.txt
 id=$1; n=$2; lid=$(echo $id | tr A-Z a-z)
-wt=/tmp/wt/$id; out=/tmp/wt-out/$id; res=$out/verify$n.txt
+wt=${SEED_WT:-/tmp/wt/$id}; out=${SEED_OUT:-/tmp/wt-out/$id}; res=$out/verify$n.txt   # round 2: SEED_WT=/tmp/wt/Dnn SEED_OUT=/tmp/wt2-out/Cnn
 export CARGO_NET_OFFLINE=true CARGO_TARGET_DIR=/tmp/wt/target-shared
 : > $res
 cd $wt || exit 2
